@@ -87,6 +87,11 @@ def _scribble(t):
 def check_text(s, multi):
     f = []
     try:
+        # the same text is first offered to the other reader (the usual "is it a conjunction? else a graph" probing)
+        penman.parse_triples(s)
+    except DecodeError:
+        pass
+    try:
         ts = list(penman.iterparse(s)) if multi else [penman.parse(s)]
     except DecodeError:
         return []          # not an accepted input: nothing to assert here (C07 decides acceptance)
